@@ -300,6 +300,13 @@ func buildShadow(o *world.Obs, ignoreLoc map[int]bool) *Shadow {
 				e.Certain = false
 				e.Why = "full reply with storability " + verdict + " (" + why + ")"
 				kept = append(kept, e)
+			} else if validated != nil && e != validated {
+				// several stored variants matched the request (their Vary fields differ): the
+				// full reply replaces the one that was validated; whether another matching one
+				// goes as well is the cache's choice
+				e.Certain = false
+				e.Why = "another matching variant was replaced"
+				kept = append(kept, e)
 			}
 		}
 		sh.entries[nf] = kept
